@@ -158,7 +158,25 @@ func genConcPlan(prop string, seed uint64, thorough bool) *Plan {
 		g.client = c + 1
 		items := []Item{{Op: "barrier", N: 1}}
 		n := 3 + g.r.IntN(maxOps-2)
+		// a connection that has owned the database exclusively before (EXEC,
+		// CLIENT INFO/LIST) must be locked out like any other afterwards
+		owned := -1
+		if g.chance(3) {
+			owned = g.r.IntN(n)
+		}
 		for i := 0; i < n; i++ {
+			if i == owned {
+				switch g.r.IntN(3) {
+				case 0:
+					items = append(items, cmdItem("CLIENT", g.pick("INFO", "LIST")))
+				default:
+					items = append(items, cmdItem("MULTI"))
+					for q := g.r.IntN(3); q > 0; q-- {
+						items = append(items, Item{Args: bs(g.concCmd(tk)...)})
+					}
+					items = append(items, cmdItem("EXEC"))
+				}
+			}
 			items = append(items, Item{Args: bs(g.concCmd(tk)...)})
 		}
 		items = append(items, Item{Op: "barrier", N: 2})
@@ -175,4 +193,81 @@ func sortItems(items []Item) {
 			items[j], items[j-1] = items[j-1], items[j]
 		}
 	}
+}
+
+// genConcTxPlan: the concurrent class of C09/C10. 2-3 connections run
+// transactions (optionally WATCHed) and plain commands on shared keys at the
+// same time; the whole history, EXEC as one operation, must be linearizable.
+func genConcTxPlan(prop string, seed uint64, thorough bool) *Plan {
+	g := newGen(seed, 7)
+	g.keys = []string{"k0", "k1", "k2"}[:2+g.r.IntN(2)]
+	p := &Plan{Prop: prop, Seed: seed, Class: "conc", Knobs: Knobs{RandSeed: int64(seed), MaxSteps: 60000}}
+	p.Knobs.Frag = g.chance(4)
+	p.Knobs.Sticky = []int{0, 30, 60, 85}[g.r.IntN(4)]
+	tk := map[mType][]string{}
+	types := []mType{tString, tList, tHash, tSet}
+	var pro []Item
+	for i, k := range g.keys {
+		t := types[(i+int(seed))%4]
+		if g.chance(3) {
+			t = tString // counters make lost updates visible
+		}
+		tk[t] = append(tk[t], k)
+		switch t {
+		case tString:
+			pro = append(pro, cmdItem("SET", k, strconv.Itoa(g.r.IntN(50))))
+		case tList:
+			pro = append(pro, cmdItem("RPUSH", k, "e0", "e1", g.val()))
+		case tHash:
+			pro = append(pro, cmdItem("HSET", k, "f0", "1", "f1", g.val()))
+		case tSet:
+			pro = append(pro, cmdItem("SADD", k, "m0", "m1", "m2"))
+		}
+	}
+	pro = append(pro, Item{Op: "barrier", N: 1})
+	p.Clients = append(p.Clients, Client{Name: "setup", Items: pro})
+	nc := 2 + g.r.IntN(2)
+	budget := 22
+	if thorough {
+		budget = 28
+	}
+	for c := 0; c < nc; c++ {
+		g.client = c + 1
+		items := []Item{{Op: "barrier", N: 1}}
+		add := func(a ...string) { items = append(items, cmdItem(a...)) }
+		ntx := 1 + g.r.IntN(2)
+		for t := 0; t < ntx && len(items) < budget/nc+4; t++ {
+			if prop == "C10" || g.chance(3) {
+				add("WATCH", g.key())
+				if g.chance(3) {
+					// optimistic read-modify-write
+					add(g.pick("GET", "TYPE", "EXISTS"), g.key())
+				}
+			}
+			if g.chance(4) {
+				add(g.concCmd(tk)...)
+			}
+			add("MULTI")
+			for q := 1 + g.r.IntN(3); q > 0; q-- {
+				if g.chance(3) {
+					add("INCR", firstOr(tk[tString], g.key()))
+				} else {
+					add(g.concCmd(tk)...)
+				}
+			}
+			if g.chance(10) {
+				add("DISCARD")
+			} else {
+				add("EXEC")
+			}
+			if g.chance(2) {
+				add(g.concCmd(tk)...)
+			}
+		}
+		items = append(items, Item{Op: "barrier", N: 2})
+		p.Clients = append(p.Clients, Client{Items: items, Depth: 1 + g.r.IntN(2)})
+	}
+	p.Clients[0].Items = append(p.Clients[0].Items, Item{Op: "barrier", N: 2})
+	p.Clients = append(p.Clients, observation(g.keys, 2))
+	return p
 }
